@@ -39,6 +39,13 @@ ENCODE_TRAITS = (
 )
 
 
+def _dyn_norm(ty):
+    ty = ty.lstrip("&").strip()
+    if ty.startswith("(") and ty.endswith(")"):
+        ty = ty[1:-1]
+    return ty.replace(" + 'static", "").strip()
+
+
 class CallGraph:
     def __init__(self, db, callback_traits=DECODE_TRAITS + ENCODE_TRAITS):
         self.db = db
@@ -91,7 +98,7 @@ class CallGraph:
                 tys = t.get("trself", "")
                 for im in db.impls:
                     if im.get("trait") == t["tr"] and (
-                        (adt and im.get("self_adt") == adt) or (tys.startswith("dyn ") and im["self_ty"] == tys.lstrip("&"))
+                        (adt and im.get("self_adt") == adt) or (_dyn_norm(tys).startswith("dyn ") and _dyn_norm(im["self_ty"]) == _dyn_norm(tys))
                     ):
                         for m in im["methods"]:
                             if m["id"] in db.fns and (m["id"], "cha") not in out:
